@@ -109,7 +109,7 @@ func planC09floor(c *Ctx, run int64) *Plan {
 	case "meta":
 		mk([]Op{{K: "meta", S: "m1", S2: "changed"}, {K: "meta-rm", S: "m2"}, {K: "meta", S: "m3", S2: "z"}}[action])
 	case "notes":
-		mk([]Op{{K: "notes", S: "n2"}, {K: "notes", S: ""}, {K: "tag", S: "t4"}}[action])
+		mk([]Op{{K: "notes", S: "not n1"}, {K: "notes", S: ""}, {K: "tag", S: "t4"}}[action]) // the altered notes contain the signed ones
 	}
 	if recalc == 1 {
 		mk(Op{K: "calc"})
@@ -137,7 +137,7 @@ func planC09life(c *Ctx, run int64) *Plan {
 		case "meta", "meta-rm":
 			op.S, op.S2 = Pick(r, []string{"m1", "m2", "m3"}), Pick(r, []string{"x", "y"})
 		case "notes":
-			op.S = Pick(r, []string{"", "n1", "n2"})
+			op.S = Pick(r, []string{"", "n1", "n2", "not n1", "n2 and more"})
 		}
 		return op
 	}
